@@ -192,9 +192,11 @@ class LocalMonitor:
         g['misdirected_ok'] = F
         g['inval_pending'] = F
         g['wrong_actual'] = F
+        g['env_inconsistent'] = F     # the environment changed the `actual` flag of a (dependency, kind) between two Ok messages
         for d in range(me):
             for kind in ('Build', 'Service'):
                 g['act.%d.%s' % (d, kind)] = F
+                g['actset.%d.%s' % (d, kind)] = F
         return g
 
     def step(self, sysm, S, obs, S2, g, k):
@@ -258,6 +260,19 @@ class LocalMonitor:
             inval_now = z3.Or([obs.get('recv', (me, ('Invalidated', 'Build', 't%d' % d))) for d in range(me)] + [obs.get('handle_inval', me)])
             g2['inval_pending'] = z3.If(decide, F, z3.If(inval_now, T, g['inval_pending']))
             g2['ok_without_cause'] = z3.Or(g2['ok_without_cause'], z3.And(res_ok, emits_okb, g['inval_pending'], z3.Not(inval_now)))
+        # assumption on the environment: a dependency's `actual` flag for a kind never changes (guaranteed on the sender
+        # side: builds/services emit a constant flag per kind -- checked below --, aggregates by induction)
+        for d in range(me):
+            for kind in ('Build', 'Service'):
+                gfl = obs.ev.get('recv', {}).get((me, ('Ok', kind, 't%d' % d)))
+                if gfl is not None and gfl[1] is not None:
+                    g2['env_inconsistent'] = z3.Or(g2['env_inconsistent'], z3.And(gfl[0], g['actset.%d.%s' % (d, kind)], gfl[1] != g['act.%d.%s' % (d, kind)]))
+                    g2['actset.%d.%s' % (d, kind)] = z3.Or(g['actset.%d.%s' % (d, kind)], gfl[0])
+        if kindme in ('build', 'service'):
+            own = 'Build' if kindme == 'build' else 'Service'
+            for key, (gg, fl) in obs.ev.get('emit', {}).items():
+                if key[0] == me and key[2][0] == 'Ok' and key[2][2] == mename and fl is not None:
+                    g2['wrong_actual'] = z3.Or(g2['wrong_actual'], z3.And(gg, fl != z3.BoolVal(key[2][1] == own)))
         if kindme == 'aggregate':
             # `actual` of an aggregate acknowledgement = some dependency acknowledged that kind with actual
             for kind in ('Build', 'Service'):
